@@ -44,4 +44,46 @@ mod verif_kani_proofs {
         assert!(r.is_some() == (n == 6 || n == 18));
         kani::cover!(n == 18);
     }
+
+    // serde layer of compact node lists (compact.rs nodes::deserialize), driven through serde's own BytesDeserializer
+    fn stub_format(_a: std::fmt::Arguments<'_>) -> String { String::new() }
+
+    /// BOUNDED (byte strings of up to 29 bytes = one entry + 3): a `nodes` string is accepted iff its length is a multiple of 26,
+    /// and yields one handle per 26 bytes (C13)
+    #[kani::proof]
+    #[kani::unwind(4)]
+    #[kani::stub(alloc::fmt::format, stub_format)]
+    fn compact_nodes_v4_length_check() {
+        use serde::de::value::{BytesDeserializer, Error as DeError};
+        const N: usize = 26 + 3;
+        let buf: [u8; N] = kani::any();
+        let n: usize = kani::any();
+        kani::assume(n <= N);
+        let de: BytesDeserializer<DeError> = BytesDeserializer::new(&buf[..n]);
+        let r = nodes_v4::deserialize(de);
+        assert!(r.is_ok() == (n % 26 == 0));
+        if let Ok(v) = r {
+            assert!(v.len() == n / 26);
+        }
+        kani::cover!(n == 26);
+    }
+
+    /// BOUNDED (byte strings of up to 41 bytes = one entry + 3): `nodes6` accepted iff the length is a multiple of 38 (C13)
+    #[kani::proof]
+    #[kani::unwind(4)]
+    #[kani::stub(alloc::fmt::format, stub_format)]
+    fn compact_nodes_v6_length_check() {
+        use serde::de::value::{BytesDeserializer, Error as DeError};
+        const N: usize = 38 + 3;
+        let buf: [u8; N] = kani::any();
+        let n: usize = kani::any();
+        kani::assume(n <= N);
+        let de: BytesDeserializer<DeError> = BytesDeserializer::new(&buf[..n]);
+        let r = nodes_v6::deserialize(de);
+        assert!(r.is_ok() == (n % 38 == 0));
+        if let Ok(v) = r {
+            assert!(v.len() == n / 38);
+        }
+        kani::cover!(n == 38);
+    }
 }
